@@ -24,8 +24,6 @@ STD_CONFIG = {
 # productions that crash a backend today (known findings F2, F4, F5, F6, F8); checks other than C15
 # keep them out of that backend's workload so that one known crash does not cost them their coverage
 AVOID = {
-    "js": dict(result_prim_err=False),
-    "demo_gen": dict(result_prim_err=False),
     "dart": dict(result_prim_err=True, opt_slices=False, byte_slices=False),
     "kotlin": dict(opt_slices=False),
 }
